@@ -594,7 +594,14 @@ fn scenario_reclaim(rep: &mut Report, r: &mut Rng, clock: &Clock, d: Duration, n
 pub fn run_c20(ctx: &mut Ctx) {
     let mut r = ctx.rng(20);
     let (level, budget, shard) = (ctx.level, ctx.budget, ctx.shard);
+    let kc_seed = ctx.seed ^ 0x20;
+    let lane_name = ctx.lane.clone();
     let rep = &mut ctx.rep;
+    // "state for an (endpoint, method, path)": as many entries as keys (see isolation::key_conservation)
+    if (shard >= 12 && level > 0) || (level == 0 && shard == 0) {
+        let lane_salt = crate::rng::fnv(lane_name.as_bytes());
+        crate::isolation::key_conservation(rep, match level { 0 => 300, 1 => 100_000, _ => 250_000 }, mix(&[kc_seed, shard, lane_salt, 20]));
+    }
     let virt = vclock::enabled() && vclock::selftest();
     if virt {
         vclock::set_frozen(true);
